@@ -3,14 +3,14 @@
  (1) the change applies and the library builds, (2) the 19 stock tests pass with it, (3) the demonstration
  fails with the change and (4) passes without it.  Writes seeded/<id>/verify.json.
 usage: tools/verify_seed.py <src-dir-with-patch.diff+demo+README.txt> <seed-id> <property> [--skip-tests]"""
-import json, os, re, shutil, subprocess, sys, time
+import re, json, os, re, shutil, subprocess, sys, time
 HERE = os.path.dirname(os.path.dirname(os.path.abspath(__file__)))
 src, sid, prop = sys.argv[1], sys.argv[2], sys.argv[3]
 skip_tests = "--skip-tests" in sys.argv
 demo_cmake = ""
 for a_ in sys.argv:
     if a_.startswith("--demo-cmake="):
-        demo_cmake = a_.split("=", 1)[1].replace(";", " ")   # several flags are separated by ';' # extra cmake flags for the build the demonstration needs (e.g. -DFP_PRIME=255)
+        demo_cmake = " ".join("'%s'" % f for f in re.split(r";(?=-D)", a_.split("=", 1)[1]))   # several flags are separated by ';' # extra cmake flags for the build the demonstration needs (e.g. -DFP_PRIME=255)
 wt = "/tmp/vs-" + sid
 log = open("/tmp/vs-%s.log" % sid, "w")
 
